@@ -1,6 +1,7 @@
 package retransmission
 
 import "github.com/keep-network/keep-core/pkg/net"
+import "sync"
 import "github.com/keep-network/keep-core/pkg/internal/verifhook"
 
 // Strategy represents a specific retransmission strategy.
@@ -45,6 +46,9 @@ func (ss *StandardStrategy) Tick(retransmitFn RetransmitFn) error {
 // ticks, between third and fourth is 4 ticks and so on. Graphically, the
 // schedule looks as follows: R _ R _ _ R _ _ _ _  R _ _ _ _ _ _ _ _ R
 type BackoffStrategy struct {
+	// mutex guards the counters below: ScheduleRetransmissions invokes Tick
+	// from a separate goroutine for every tick, so calls may overlap.
+	mutex          sync.Mutex
 	tickCounter    uint64
 	delay          uint64
 	retransmitTick uint64
@@ -63,6 +67,9 @@ func WithBackoffStrategy() *BackoffStrategy {
 // Tick implements the Strategy.Tick function.
 func (bos *BackoffStrategy) Tick(retransmitFn RetransmitFn) error {
 	defer verifhook.At("retransmission.backoff.done")
+	bos.mutex.Lock()
+	defer bos.mutex.Unlock()
+
 	bos.tickCounter++
 	verifhook.At("retransmission.backoff.counted")
 
